@@ -24,7 +24,7 @@ use soroban_sdk::testutils::Address as _;
 use soroban_sdk::token::TokenClient;
 use soroban_sdk::xdr::ScVal;
 use soroban_sdk::{Address, Bytes, BytesN, IntoVal, Symbol, Val, Vec as SVec};
-use std::collections::BTreeSet;
+use std::collections::{BTreeMap, BTreeSet};
 
 pub const CONTRACT_DIRS: [&str; 7] =
     ["axelar-gateway", "axelar-gas-service", "axelar-operators", "interchain-token-service", "interchain-token", "upgrader", "example"];
@@ -294,7 +294,11 @@ pub fn scan_repo() -> Vec<Ep> {
                 let words: Vec<Tok> = tokenize(line);
                 for (d, name, types, names) in &derive_eps {
                     if words.contains(&Tok::Id(d.clone())) {
-                        eps.insert(Ep { contract: c.to_string(), name: name.clone(), types: types.clone(), names: names.clone(), unlisted: false });
+                        let mut types = types.clone();
+                        if name == "migrate" && types.len() == 1 {
+                            types[0] = migration_type(c);
+                        }
+                        eps.insert(Ep { contract: c.to_string(), name: name.clone(), types, names: names.clone(), unlisted: false });
                     }
                 }
             }
@@ -306,6 +310,85 @@ pub fn scan_repo() -> Vec<Ep> {
             e
         })
         .collect()
+}
+
+/// The migration data type a shipped contract declares (`#[migratable(with_type = T)]`); "()" when it declares none.
+pub fn migration_type(contract_dir: &str) -> String {
+    static CACHE: std::sync::OnceLock<std::sync::Mutex<BTreeMap<String, String>>> = std::sync::OnceLock::new();
+    let cache = CACHE.get_or_init(Default::default);
+    if let Some(t) = cache.lock().unwrap().get(contract_dir) {
+        return t.clone();
+    }
+    let t = migration_type_uncached(contract_dir);
+    cache.lock().unwrap().insert(contract_dir.to_string(), t.clone());
+    t
+}
+
+fn migration_type_uncached(contract_dir: &str) -> String {
+    let mut files = vec![];
+    rs_files(&repo_root().join("contracts").join(contract_dir).join("src"), &mut files);
+    for f in &files {
+        let Ok(src) = std::fs::read_to_string(f) else { continue };
+        let toks = tokenize(&strip_comments(&src));
+        for i in 0..toks.len() {
+            if toks[i] == Tok::Id("migratable".into()) && toks.get(i + 1) == Some(&Tok::P('(')) && toks.get(i + 2) == Some(&Tok::Id("with_type".into())) && toks.get(i + 3) == Some(&Tok::P('=')) {
+                let mut depth = 0i32;
+                let mut j = i + 4;
+                while j < toks.len() {
+                    match toks[j] {
+                        Tok::P('(') => depth += 1,
+                        Tok::P(')') => {
+                            if depth == 0 {
+                                break;
+                            }
+                            depth -= 1;
+                        }
+                        Tok::P(',') if depth == 0 && !toks[i + 4..j].iter().any(|t| *t == Tok::P('<')) => break,
+                        _ => {}
+                    }
+                    j += 1;
+                }
+                return toks_to_type(&toks[i + 4..j]);
+            }
+        }
+    }
+    "()".to_string()
+}
+
+/// every migration data type other than `()` declared by a shipped contract (read once per process)
+pub fn migration_types() -> &'static Vec<String> {
+    static T: std::sync::OnceLock<Vec<String>> = std::sync::OnceLock::new();
+    T.get_or_init(|| {
+        let mut v: Vec<String> = CONTRACT_DIRS.iter().map(|c| migration_type(c)).filter(|t| t != "()").collect();
+        v.sort();
+        v.dedup();
+        v
+    })
+}
+
+/// top-level components of a tuple type "(A,B<C,D>,E)"
+pub fn tuple_parts(ty: &str) -> Option<Vec<&str>> {
+    if !(ty.starts_with('(') && ty.ends_with(')')) || ty == "()" {
+        return None;
+    }
+    let inner = &ty[1..ty.len() - 1];
+    let mut parts = vec![];
+    let (mut depth, mut st) = (0i32, 0usize);
+    for (i, c) in inner.char_indices() {
+        match c {
+            '<' | '(' => depth += 1,
+            '>' | ')' => depth -= 1,
+            ',' if depth == 0 => {
+                parts.push(&inner[st..i]);
+                st = i + 1;
+            }
+            _ => {}
+        }
+    }
+    if st < inner.len() {
+        parts.push(&inner[st..]);
+    }
+    Some(parts)
 }
 
 pub fn inventory_lines() -> Vec<String> {
@@ -329,7 +412,7 @@ pub fn probeable(ty: &str) -> bool {
         | "TokenMetadata" | "Message" | "Proof" | "WeightedSigners" => true,
         _ => match split_generic(ty) {
             Some(("Option", t)) | Some(("Vec", t)) => probeable(t),
-            _ => false,
+            _ => tuple_parts(ty).map(|ps| ps.iter().all(|p| probeable(p))).unwrap_or(false),
         },
     }
 }
@@ -636,7 +719,23 @@ impl<'a> SweepWorld<'a> {
                     }
                     v.into_val(env)
                 }
-                _ => Val::VOID.into(),
+                _ => match tuple_parts(ty) {
+                    // (tuples travel as vectors) a pair of strings is, three times out of four, the (chain, id) of a
+                    // message the gateway holds approved
+                    Some(ps) if ps == ["String", "String"] && seed % 4 != 3 => {
+                        let (c, i, _) = &self.approved[(seed / 4 % self.approved.len() as u64) as usize];
+                        let v: SVec<Val> = SVec::from_array(env, [sstr(env, c).into_val(env), sstr(env, i).into_val(env)]);
+                        v.into_val(env)
+                    }
+                    Some(ps) => {
+                        let mut v: SVec<Val> = SVec::new(env);
+                        for (k, p) in ps.iter().enumerate() {
+                            v.push_back(self.value(p, mix(seed, 20 + k as u64)));
+                        }
+                        v.into_val(env)
+                    }
+                    None => Val::VOID.into(),
+                },
             },
         }
     }
